@@ -23,6 +23,19 @@ CLAIMED = {
     ),
 }
 
+CLAIMED["C15"] = dict(
+    engine="E-dwarf",
+    text="Lean theorems, for every directive kind, state, operand list and symbol slot: the Python-dict model of "
+    "evaluate_cfi_directives refines a specification with total rule tables written from DWARF v4 §6.4 "
+    "(restore-to-initial, remember/restore stack, CFA rules, escaped expression instructions), procedure "
+    "bracketing, typed errors (CFIStateError/ValueError only over the supported set), one row per location in "
+    "stable address order; ABI parameters (return column, pointer size, byte order) regenerated from abi._ABIS; "
+    "tied by a differential run on seeded well-formed and ill-formed directive sequences with copies serialised "
+    "after the whole evaluation (aliasing).",
+    technique="Lean 4 proof (refinement of a dict-based model to a total-function spec, case analysis per directive) + translator + differential correspondence",
+    design="DESIGN.md#c15",
+)
+
 ALL = ["C%02d" % i for i in range(1, 21)]
 
 NOT_YET = "engine designed in DESIGN.md but its model/proofs are not built yet in this revision; not claimed"
